@@ -146,6 +146,7 @@ func (h *hist) genClientProposal(focus string) prop {
 		if err != nil {
 			return prop{Kind: "create-client", Sub: ctype, Desc: "unpackable: " + err.Error()}
 		}
+		consT = dropCons(rng, c, consT)
 		return prop{Content: c, Kind: "create-client", Sub: ctype, Chain: name, Desc: fmt.Sprintf("chain=%s cons=%s twists=%v existing=%q", name, consT, tw, h.clientType(name))}
 	case w < 60:
 		name := h.pickChain(true, focus)
@@ -164,6 +165,7 @@ func (h *hist) genClientProposal(focus string) prop {
 		if err != nil {
 			return prop{Kind: "upgrade-client", Sub: ctype, Desc: "unpackable: " + err.Error()}
 		}
+		consT = dropCons(rng, c, consT)
 		return prop{Content: c, Kind: "upgrade-client", Sub: ctype, Chain: name, Desc: fmt.Sprintf("chain=%s cons=%s twists=%v stored=%q", name, consT, tw, stored)}
 	}
 	// toggle: the STORED client's Initialize runs on the new consensus state, at submission (dry run) on
@@ -199,7 +201,27 @@ func (h *hist) genClientProposal(focus string) prop {
 	if err != nil {
 		return prop{Kind: "toggle-client", Sub: ctype, Desc: "unpackable: " + err.Error()}
 	}
+	consT = dropCons(rng, c, consT)
 	return prop{Content: c, Kind: "toggle-client", Sub: ctype, Chain: name, Desc: fmt.Sprintf("chain=%s cons=%s twists=%v stored=%q%s", name, consT, tw, stored, aim)}
+}
+
+// dropCons removes, now and then, the consensus state from a client proposal altogether (the field is optional on the
+// wire and stateless validation does not ask for it): whatever the handler does with the absent value, it must not panic.
+func dropCons(rng *rand.Rand, c govtypes.Content, consT string) string {
+	if rng.Intn(100) >= 9 {
+		return consT
+	}
+	switch p := c.(type) {
+	case *clienttypes.CreateClientProposal:
+		p.ConsensusState = nil
+	case *clienttypes.UpgradeClientProposal:
+		p.ConsensusState = nil
+	case *clienttypes.ToggleClientProposal:
+		p.ConsensusState = nil
+	default:
+		return consT
+	}
+	return "absent"
 }
 
 // futureType is the client type the chain will have once the accepted,
